@@ -239,7 +239,7 @@ func init() {
 	})
 	NewSpace(p, "exec", c19Check)
 	p.Run = func(r *rep.Run, thorough bool) {
-		if _, err := scriptref.Anchor("/repo/bscript/interpreter/data/script_tests.json"); err != nil {
+		if _, err := scriptref.Anchor(vectorsDir() + "/script_tests.json"); err != nil {
 			r.HarnessError("script reference failed its anchor: " + err.Error())
 			return
 		}
